@@ -51,6 +51,9 @@ if __name__=='__main__':
     cfg='default'
     args=sys.argv[1:]
     if args and args[0] in ('default','serde','release'): cfg=args.pop(0)
-    d=extract(cfg)
+    repo=None
+    if '--repo' in args:
+        i=args.index('--repo'); repo=args[i+1]; del args[i:i+2]
+    d=extract(cfg, repo, target_tag='dbg' if repo else None)
     for f in d['fns']:
         if all(a in f['path'] for a in args): dump(f)
